@@ -2,11 +2,9 @@ package main
 
 import "verifharness/internal/wire"
 
-type CutSpec struct{}
+func genC03Zt(r *wire.Rng) *History         { return nil }
+func genC05Zt(r *wire.Rng) *History         { return nil }
+func runC03Zt(h *History, st *stats) result { return result{} }
+func runC05Zt(h *History, st *stats) result { return result{} }
 
-func genC03Zt(r *wire.Rng) *History           { return nil }
-func genC05(r *wire.Rng) *History             { return nil }
-func runC03Zt(h *History, st *stats) result   { return result{} }
-func runC05(h *History, st *stats) result     { return result{} }
-func runC05Zt(h *History, st *stats) result   { return result{} }
 const ztEnabled = false
